@@ -155,8 +155,9 @@ def _dynamic(ctx):
                 field = numpy.outer(rng.uniform(50, 300, nrows), B[:, n])       # one basis vector of the invariant subspace
                 cls = "basis-vector"
             else:
-                field = FT.invariant_field(rng, system, nrows)
-                cls = "random-invariant"
+                zr = (n % 5 == 4)
+                field = FT.invariant_field(rng, system, nrows, one_signed_with_zero=zr)
+                cls = "random-invariant" + ("+component-zero-at-one-end" if zr and nrows >= 2 else "")
             S = FT.minimal_sufficient(rng, system)
             if n % 3 == 0:
                 S = FT.superset(rng, S)
@@ -229,7 +230,7 @@ def _dynamic(ctx):
                     ks = [k_ for k_ in range(Bm.shape[1]) if rng.random() < 0.6]
                     if ks:
                         fieldm = fieldm + (Bm[:, ks] @ rng.uniform(-0.45, 0.45, size=(len(ks), nrows))).T
-                    whole = [s_ for s_ in S if numpy.allclose(fieldm[:, s_], numpy.round(fieldm[:, s_]), atol=1e-9)]
+                    whole = [s_ for s_ in S if numpy.allclose(fieldm[:, s_], numpy.round(fieldm[:, s_]), rtol=0, atol=1e-9)]
                     frac = [s_ for s_ in S if s_ not in whole]
                     if whole and frac:
                         first = whole[int(rng.integers(0, len(whole)))]
